@@ -90,8 +90,8 @@ def cache_coherence(run, prog, rule: str, classes: t.Sequence[str]):
             cache = ("attr", me, A)
             sites = 0
             for name, fi in sorted(ci.methods.items()):
-                if fi is getter or name == "__init__":
-                    continue
+                if fi is getter or name == "__init__" or eng.is_unknown_helper(fi):
+                    continue  # (an extracted helper is analysed in place inside the methods that call it)
                 try:
                     paths = eng.paths(fi, recv=cq)
                 except AnalysisError:
